@@ -110,7 +110,7 @@ fn find_exit_keyword_p(
 fn demand_statement_p()
 -> impl Parser<StringView, Output = StatementOrExitKeyword, Error = ParserError> {
     // needs to be lazy otherwise stackoverflow
-    lazy(statement_p)
+    statement_depth_guard(lazy(statement_p))
         .with_pos()
         .map(StatementOrExitKeyword::Statement)
         .or_expected("statement")
